@@ -14,7 +14,7 @@ import subprocess
 import sys
 
 ROOT = os.path.dirname(os.path.dirname(os.path.abspath(__file__)))
-BASE = "/tmp/mx"
+BASE = os.environ.get("VERIF_MX_BASE", "/tmp/mx")
 
 
 def sh(cmd, **kw):
